@@ -4,7 +4,7 @@
    notes/C16.fix-1.diff + fix-2.diff.  Full-strength statements are proved for [repaired]; for [pinned] the same
    statements are refuted by witness and proved under exactly the guard that excludes the failing class. *)
 From Coq Require Import ZArith List Bool.
-From BNP Require Import Base.Prims Model.C16 Proofs.C16 Corr.C16 Proofs.C16_link.
+From BNP Require Import Base.Prims Model.C16 Proofs.C16 Corr.C16 Proofs.C16_link Gen.C16 Bridge.C16.
 Import ListNotations.
 Open Scope Z_scope.
 
@@ -177,6 +177,73 @@ Proof.
       (Forall_impl _ (fun r H => good_pinned refs r (proj1 H) (proj2 H)) Hg)).
 Qed.
 Print Assumptions C16_model_satisfies_spec_partial.
+
+(* Source tie: the arithmetic regenerated on this run from /repo's io/bam.py, alignments/cigar.py,
+   alignments/__init__.py and io/parser.py (Gen/C16.v, written by translate/run.py + translate/gen_c16.py) is the
+   arithmetic of the model the theorems above are about: the (offset, width, signedness) of every fixed field, the
+   byte index of _get_ints, the derived offset chain with n_cigar_op * 4 (in the dtype the source computes it) and
+   (l_seq + 1) // 2, the slice bounds of name / CIGAR / sequence / qualities, two nibbles per byte high first masked
+   with 15 and trimmed to l_seq, the block chain step start + block_size + 4 from chunk[start:start+4] with the
+   `<=` test starting at 0, the CIGAR split (& 15, >> 4), the "MDN=X" reference length, stop = position + length and
+   strand from flag & 16 on both interval routes, and the reader's end-of-stream test.  Element-wise NumPy
+   expressions are read per element. *)
+Theorem C16_source_tie :
+  (forall d s, m_refid d s = read_field gen_fld_refid d s /\ m_pos d s = read_field gen_fld_pos d s
+            /\ m_n_cigar d s = read_field gen_fld_n_cigar d s /\ m_flag d s = read_field gen_fld_flag d s
+            /\ m_l_seq d s = read_field gen_fld_l_seq d s
+            /\ m_l_read_name d s = nthZ d (gen_l_read_name_index s) /\ m_mapq d s = nthZ d (gen_mapq_index s))
+  /\ (gen_pos_is_raw = true /\ gen_flag_is_raw = true /\ gen_l_seq_is_raw = true /\ gen_raw_buffer_shape = true)
+  /\ (forall d s off n, get_uint d s off n = from_le (slice (gen_get_ints_index s off 0) (gen_get_ints_index s off n) d))
+  /\ (forall d s, m_name_start s = gen_read_name_start s
+            /\ m_cigar_start d s = gen_cigar_start (gen_read_name_start s) (m_l_read_name d s)
+            /\ m_seq_start current d s = gen_sequence_start (m_cigar_start d s) (gen_cigar_bytes (m_n_cigar d s))
+            /\ m_qual_start current d s = gen_quality_start (m_seq_start current d s) (m_l_seq d s))
+  /\ (forall n, v_cigar_bytes current n = gen_cigar_bytes n)
+  /\ (forall d s,
+        let A := m_name_start s in let B := m_cigar_start d s in let C := m_seq_start current d s in
+        let D := m_qual_start current d s in let L := m_l_seq d s in
+        m_name d s = slice (gen_name_lo A B C D L) (gen_name_hi A B C D L) d
+        /\ m_cigar_words current d s
+           = map from_le (chunks_of (Z.to_nat gen_cigar_word_bytes) (slice (gen_cigar_lo A B C D L) (gen_cigar_hi A B C D L) d))
+        /\ m_seq current d s
+           = firstn (Z.to_nat (gen_seq_keep L)) (nibbles (slice (gen_seq_lo A B C D L) (gen_seq_hi A B C D L) d))
+        /\ m_qual current d s = slice (gen_qual_lo A B C D L) (gen_qual_hi A B C D L) d)
+  /\ (forall b, nibbles [b] = [gen_nibble b 0; gen_nibble b 1] /\ gen_nibbles_per_byte = 2)
+  /\ (forall s l, gen_seq_row_len l = gen_nibbles_per_byte * (gen_quality_start s l - s))
+  /\ (forall n, gen_cigar_n_words n = n / gen_cigar_word_bytes)
+  /\ (forall chunk start,
+        find_next chunk start = gen_find_next start (from_le (slice (gen_block_size_lo start) (gen_block_size_hi start) chunk))
+        /\ in_chunk start (len chunk) = gen_in_chunk start (len chunk)
+        /\ find_starts chunk = find_starts_fuel (S (S (length chunk))) chunk gen_first_start)
+  /\ (forall n k, is_finished n k = gen_is_finished n k)
+  /\ (forall d s, m_cigar current d s = map (fun w => (gen_cigar_op w, gen_cigar_len w)) (m_cigar_words current d s))
+  /\ map (fun c => index_of c cigar_letters) (codes gen_consuming) = m_consuming
+  /\ (forall cg, m_reflen cg
+        = sumZ (map (fun c => gen_ref_term (if existsb (Z.eqb (fst c)) m_consuming then 1 else 0) (snd c)) cg))
+  /\ (forall names d s,
+        let iv := interval_at current names d s in
+        i_stop iv = gen_bib_stop (m_pos d s) (m_reflen (m_cigar current d s))
+        /\ i_stop iv = gen_a2i_stop (m_pos d s) (m_reflen (m_cigar current d s))
+        /\ i_strand iv = gen_bib_strand (m_flag d s)
+        /\ i_strand iv = gen_a2i_strand (gen_a2i_strand_bits (m_flag d s))).
+Proof.
+  exact (conj (fun d s => conj (br_fld_refid d s) (conj (br_fld_pos d s) (conj (br_fld_n_cigar d s) (conj (br_fld_flag d s)
+                 (conj (br_fld_l_seq d s) (conj (br_l_read_name d s) (br_mapq d s)))))))
+        (conj br_raw_fields
+        (conj br_get_ints
+        (conj (fun d s => conj (br_read_name_start s) (conj (br_cigar_start d s) (conj (br_sequence_start d s) (br_quality_start d s))))
+        (conj br_cigar_bytes
+        (conj (fun d s => conj (br_name_slice d s) (conj (br_cigar_slice d s) (conj (br_seq_slice d s) (br_qual_slice d s))))
+        (conj br_nibbles
+        (conj br_seq_row_len
+        (conj br_cigar_n_words
+        (conj (fun chunk start => conj (br_find_next chunk start) (conj (br_in_chunk start (len chunk)) (br_first_start chunk)))
+        (conj br_is_finished
+        (conj br_cigar
+        (conj br_consuming
+        (conj br_ref_term br_interval)))))))))))))).
+Qed.
+Print Assumptions C16_source_tie.
 
 (* non-vacuity: a concrete two-reference file with a 3-operation record of odd length, an unmapped record with tags
    and a 9-operation record without sequence meets the hypotheses; the executable model really decodes it, reads it
